@@ -166,7 +166,18 @@ func (st *state) engine() *engState {
 	for _, f := range userFlows(st.flows) {
 		files["flows/"+f.name+".yaml"] = f.yaml()
 	}
-	e, err := engine.New(files, true)
+	var e *engine.Engine
+	var err error
+	func() {
+		// AddFlow dereferences a nil node when `a.com/*/*` was loaded before `a.com/*` (model: AddErr.nilNode);
+		// inside the engine that panic escapes Stream.Initialize
+		defer func() {
+			if r := recover(); r != nil {
+				err = fmt.Errorf("panic: %v", r)
+			}
+		}()
+		e, err = engine.New(files, true)
+	}()
 	if err != nil {
 		if os.Getenv("VERIF_DEBUG") != "" {
 			fmt.Fprintln(os.Stderr, "engine init failed:", err)
